@@ -1583,6 +1583,9 @@ func (m *Model) atomVal(id int) string {
 	if c, single := a.cls.single(); single {
 		if v, ok := m.m["l"+strconv.Itoa(id)]; ok && len(v) > 1 {
 			n, _ := strconv.Atoi(v[1:])
+			if n > 1<<24 {
+				m.p.abort("unsupported", "model value of more than 16 MiB")
+			}
 			return strings.Repeat(string([]byte{c}), n)
 		}
 	}
